@@ -3,6 +3,7 @@ package main
 // Mapping of Go types to SMT sorts, zero values, integer ranges.
 
 import (
+	"sync"
 	"fmt"
 	"go/types"
 	"math/big"
@@ -293,7 +294,9 @@ func (c *FnCtx) typeFacts(t types.Type, term string) string {
 			return rangeFact(t, term)
 		}
 	case *types.Slice:
-		return fmt.Sprintf("(and (<= 0 (sl_off %[1]s)) (<= 0 (sl_len %[1]s)) (<= (sl_len %[1]s) (sl_cap %[1]s)) (<= (sl_cap %[1]s) 72057594037927936) (<= (sl_off %[1]s) 72057594037927936) (>= (sl_base %[1]s) 0) (=> (= (sl_base %[1]s) 0) (= (sl_cap %[1]s) 0)))", term)
+		// arr_ty: the Go element type of a backing array (type safety: a []T only ever points into an array of T, so
+		// arrays of different Go element types are different arrays even when the elements share an SMT sort)
+		return fmt.Sprintf("(and (<= 0 (sl_off %[1]s)) (<= 0 (sl_len %[1]s)) (<= (sl_len %[1]s) (sl_cap %[1]s)) (<= (sl_cap %[1]s) 72057594037927936) (<= (sl_off %[1]s) 72057594037927936) (>= (sl_base %[1]s) 0) (=> (= (sl_base %[1]s) 0) (= (sl_cap %[1]s) 0)) (=> (not (= (sl_base %[1]s) 0)) (= (arr_ty (sl_base %[1]s)) %[2]d)))", term, goTypeTag(u.Elem()))
 	case *types.Struct:
 		var fs []string
 		for i := 0; i < u.NumFields(); i++ {
@@ -306,7 +309,9 @@ func (c *FnCtx) typeFacts(t types.Type, term string) string {
 		}
 		// a pointer to a non-struct value is nil or denotes a heap cell, a slice/array element
 		// or a struct field of exactly that type
-		alts := []string{eq(term, "pnil"), and(app("(_ is pcell)", term), app(">", app("pc_ref", term), "0")), and(app("(_ is pelem)", term), app(">", app("pe_base", term), "0"))}
+		tag := fmt.Sprint(goTypeTag(u.Elem()))
+		alts := []string{eq(term, "pnil"), and(app("(_ is pcell)", term), app(">", app("pc_ref", term), "0"), eq(app("cell_ty", app("pc_ref", term)), tag)),
+			and(app("(_ is pelem)", term), app(">", app("pe_base", term), "0"), eq(app("arr_ty", app("pe_base", term)), tag))}
 		if c.eng != nil {
 			for _, fc := range c.eng.fieldsOfType(u.Elem()) {
 				name, _ := c.fieldHeap(fc.st, fc.idx)
@@ -370,4 +375,20 @@ func (c *FnCtx) constArray(idxSort, elemSort, v string) string {
 	c.smt.assume(fmt.Sprintf("(forall ((i %s)) (! (= (select %s i) %s) :pattern ((select %s i))))", idxSort, a, v, a), "constant array")
 	c.constArrays[key] = a
 	return a
+}
+
+// goTypeTag numbers Go types (identical types get the same number).
+var goTypeTags = map[string]int{}
+var goTypeTagMu sync.Mutex
+
+func goTypeTag(t types.Type) int {
+	goTypeTagMu.Lock()
+	defer goTypeTagMu.Unlock()
+	k := types.TypeString(t, nil)
+	if n, ok := goTypeTags[k]; ok {
+		return n
+	}
+	n := len(goTypeTags) + 1
+	goTypeTags[k] = n
+	return n
 }
